@@ -31,12 +31,16 @@ def If(c, a, b=None): return {"t": "if", "c": c, "a": a, "b": b if b is not None
 def Say(x): return {"t": "say", "x": x}
 def Probe(k): return {"t": "probe", "k": k}
 def Raise(kind, msg): return {"t": "raise", "kind": kind, "msg": msg}
-def PCall(r, n, args=(), kw=(), add="", lay=0):
+def PCall(r, n, args=(), kw=(), add="", lay=0, main=".", carg=None):
     """lay: where the keyword arguments are written: 0 after, 1 before, 2 after the first positional argument"""
-    return {"t": "pcall", "r": r if r is not None else NONE, "n": n, "args": list(args), "kw": [{"k": k, "v": v} for k, v in kw], "add": add, "lay": lay}
+    return {"t": "pcall", "r": r if r is not None else NONE, "n": n, "args": list(args), "kw": [{"k": k, "v": v} for k, v in kw], "add": add, "lay": lay,
+            "main": main, "carg": carg if carg is not None else NONE}
 def Call(f, args=(), kw=(), lay=0): return dict(PCall(f, "call", args, kw, lay=lay), sugar="call")
 def Idx(x, i): return dict(PCall(x, "at", [Arr(i)]), sugar="index")
-def LCall(r, fn): return {"t": "lcall", "r": r, "fn": fn}
+def LCall(r, fn, main=".", add="", carg=None):
+    return {"t": "lcall", "r": r if r is not None else NONE, "fn": fn, "main": main, "add": add, "carg": carg if carg is not None else NONE}
+def VCall(r, n, main=".", add="", carg=None):
+    return {"t": "vcall", "r": r if r is not None else NONE, "n": n, "main": main, "add": add, "carg": carg if carg is not None else NONE}
 def Try(r, fn, acc): return {"t": "try", "r": r, "fn": fn, "acc": acc}
 def Raw(s): return {"t": "rawsrc", "s": s}           # outside PanEval (unsupported), printed verbatim
 def Jump(k, x, g=None): return {"t": "jump", "k": k, "x": x, "g": g if g is not None else NONE}
@@ -104,21 +108,29 @@ def src(e):
             if e.get("sugar") == "call":
                 return f"{src(e['r'])}({joined})"
             recv = src(e["r"]) if e["r"]["t"] != "none" else ""
-            return f"{recv}{e['add']}.{e['n']}({joined})"
+            return f"{recv}{chain_src(e)}{e['n']}({joined})"
         if e.get("sugar") == "call":
             return f"{src(e['r'])}({', '.join(args)})"
         if e.get("sugar") == "index":
             return f"{src(e['r'])}[{src(e['args'][0]['es'][0])}]"
         recv = src(e["r"]) if e["r"]["t"] != "none" else ""
-        chain = e["add"] + "."
-        return f"{recv}{chain}{e['n']}" + (f"({', '.join(args)})" if args else "")
+        return f"{recv}{chain_src(e)}{e['n']}" + (f"({', '.join(args)})" if args else "")
     if t == "rawsrc":
         return "(" + e["s"] + ")"
     if t == "lcall":
-        return f"{src(e['r'])}.{src(e['fn'])}"
+        return f"{src(e['r']) if e['r']['t'] != 'none' else ''}{chain_src(e)}{src(e['fn'])}"
+    if t == "vcall":
+        return f"{src(e['r']) if e['r']['t'] != 'none' else ''}{chain_src(e)}^{e['n']}"
     if t == "try":
         return f"{src(e['r'])}.try.{src(e['fn'])}.{e['acc']}"
     raise ValueError(t)
+
+
+def chain_src(e):
+    c = e.get("add", "") + e.get("main", ".")
+    if e.get("carg", NONE)["t"] != "none":
+        c += "(" + src(e["carg"]) + ")"
+    return c
 
 
 def stmt_src(s):
@@ -137,7 +149,7 @@ def program_src(body):
 def names_of(node, acc=None):
     acc = set() if acc is None else acc
     if isinstance(node, dict):
-        if node.get("t") in ("id", "asg", "casg"):
+        if node.get("t") in ("id", "asg", "casg", "vcall"):
             acc.add(node["n"])
         if node.get("t") == "fn":
             acc.update(node["ps"])
